@@ -165,3 +165,37 @@ func MapOrder(mode string) {}
 
 // Unwind sets the loop bound for the rest of the path (engine only).
 func Unwind(n int) {}
+
+// All is conjunction without short-circuit control flow (one solver term instead of forks).
+func All(cs ...bool) bool {
+	for _, c := range cs {
+		if !c {
+			return false
+		}
+	}
+	return true
+}
+
+// Any is disjunction without short-circuit control flow.
+func Any(cs ...bool) bool {
+	for _, c := range cs {
+		if c {
+			return true
+		}
+	}
+	return false
+}
+
+// Ite / IteDec select a value without forking the path.
+func Ite(c bool, a, b sdkmath.Int) sdkmath.Int {
+	if c {
+		return a
+	}
+	return b
+}
+func IteDec(c bool, a, b sdkmath.LegacyDec) sdkmath.LegacyDec {
+	if c {
+		return a
+	}
+	return b
+}
